@@ -2145,6 +2145,13 @@ func (m *Machine) processQueue() Result {
 	m.queueRunning.Store(false)
 	verifhook.Point("pq.released")
 
+	// a caller may have appended and lost the CAS after the drain loop saw an
+	// empty queue, but before the flag was released: nobody else will process
+	// that mutation
+	if m.queueLen.Load() > 0 && !m.disposing.Load() {
+		m.processQueue()
+	}
+
 	// tracers
 	m.tracersMx.RLock()
 	for i := 0; !m.disposing.Load() && i < len(m.tracers); i++ {
